@@ -1,3 +1,2 @@
-(* further commands (search, slice, clean, ...) *)
-let dispatch _zt (emit : string -> string -> unit) (_fields : string list) : unit =
-  emit "M" "unknown"; emit "S" "unknown"
+(* placeholder module kept for the build script *)
+let unused = ()
